@@ -1942,6 +1942,8 @@ class Engine:
                 if obj.k == 'dyn':
                     outs.append((st1, V('any', VV.any_item(obj.z, j))))
                 else:
+                    if not obj.extra.get('get'):
+                        raise Unsupported(node, 'element of a sequence the contract gives no element function for')
                     outs.append((st1, obj.extra['get'](self, j, st1)))
             return outs
         raise Unsupported(node, 'subscript of %r' % (obj,))
@@ -1994,7 +1996,7 @@ class Engine:
                 sq = self.as_seq(obj, st1)
                 l = sq.extra['len']
                 mm = z3.If(m.z < 0, z3.If(m.z + l > 0, m.z + l, 0), z3.If(m.z < l, m.z, l))
-                outs.append((st1, V('seq', extra={'len': mm, 'get': sq.extra['get']})))
+                outs.append((st1, V('seq', extra={'len': mm, 'get': sq.extra.get('get')})))
             return outs
         if obj.k in ('dyn', 'seq') and sl.step is None and (obj.k == 'seq' or obj.cls in ('list', 'tuple')):
             # general lower/upper bounds with Python's clamping
